@@ -318,6 +318,20 @@ def pyfn_call(fn, interp, st, args, kwargs, node):
             else:
                 res.append((s, "val", vals[0] if len(parts) == 1 else tuple(vals)))
         return res
+    if kind == "namedtuple":
+        typename, names, defaults = parts
+        vals = dict(zip(names, args))
+        if len(args) > len(names) or any(k_ not in names or k_ in vals for k_ in kwargs):
+            return interp.raise_exc(st, "TypeError", node, "namedtuple", "%s() got unexpected arguments" % typename)
+        vals.update(kwargs)
+        for n_, d_ in zip(names[len(names) - len(defaults):], defaults):
+            vals.setdefault(n_, d_)
+        missing = [n_ for n_ in names if n_ not in vals]
+        if missing:
+            return interp.raise_exc(st, "TypeError", node, "namedtuple", "%s() missing %s" % (typename, missing))
+        fields = {n_: vals[n_] for n_ in names}
+        fields["@nt"] = names
+        return [(st, "val", st.alloc(HObj(typename, fields, label=typename)))]
     if kind == "dict.fromkeys":
         if not (1 <= len(args) <= 2) or kwargs:
             return interp.raise_exc(st, "TypeError", node, "fromkeys", "dict.fromkeys expects 1 or 2 arguments")
@@ -367,12 +381,36 @@ def call_ext(self, st, name, args, kwargs, node):
         if last == "getitem" and len(args) == 2 and not kwargs:
             return self.get_item(st, args[0], args[1], node)
         return KeyError
+    if name == "collections.namedtuple" and len(args) == 2 and isinstance(args[0], str) and not (set(kwargs) - {"rename", "defaults", "module"}):
+        spec = args[1]
+        names = None
+        if isinstance(spec, str):
+            names = tuple(spec.replace(",", " ").split())
+        elif not isinstance(spec, Top):
+            kind, seq = self.iter_values(st, spec, node)
+            if kind == "concrete" and all(isinstance(x, str) for x in seq):
+                names = tuple(seq)
+        dflt = kwargs.get("defaults")
+        if names and (dflt is None or isinstance(dflt, tuple)):
+            return [(st, "val", PyFn("namedtuple", (args[0], names, tuple(dflt or ()))))]
     if name == "functools.partial" and args:
         return [(st, "val", PyFn("partial", (args[0], tuple(args[1:]), tuple(sorted(kwargs.items())))))]
     if name in ("itertools.islice",) and 2 <= len(args) <= 3 and not kwargs and all(isinstance(a, int) or a is None for a in args[1:]):
         start, stop = (0, args[1]) if len(args) == 2 else (args[1] or 0, args[2])
         if not isinstance(args[0], Top):
             return [(st, "val", lazy(self, st, "islice", None, [args[0]], node, start=start, stop=stop, cnt=0))]
+    if name == "itertools.product" and args and set(kwargs) <= {"repeat"} and not any(isinstance(a, Top) for a in args):
+        import itertools as _it
+        parts = []
+        for a in args:
+            kind, seq = self.iter_values(st, a, node)
+            if kind != "concrete":
+                parts = None
+                break
+            parts.append(list(seq))
+        rep = kwargs.get("repeat", 1)
+        if parts is not None and isinstance(rep, int):
+            return [(st, "val", st.alloc(HObj("iterator", {"@pos": 0}, kind="iterator", items=list(_it.product(*parts, repeat=rep)))))]
     if name in ("itertools.chain.from_iterable",) and len(args) == 1 and not kwargs and not isinstance(args[0], Top):
         kind, seq = self.iter_values(st, args[0], node)
         if kind == "concrete" and not any(isinstance(x, Top) for x in seq):
